@@ -573,4 +573,152 @@ example : ∃ L voff, layoutTsm 0 (2 ^ 0) = some L ∧ valueOffset (2 ^ 0) = som
 example : layoutTsm 128 64 = some ⟨192, 64⟩ ∧ valueOffset 64 = some 64 := by decide
 example : layoutTsm 4097 1 = some ⟨4128, 8⟩ ∧ valueOffset 1 = some 24 := by decide
 
+/-! ## thread topology: spawned threads as the handle side of other threads -/
+
+/-- tie T: `set_tid_address` acts on the calling thread, so only code that runs on the spawned thread itself (its entry
+closure, the panic handler's thread paths) may issue it; no path of `spawn`, `join` or `Drop::drop` — which run on the
+thread that owns the handle, possibly itself a spawned thread — contains it (helper functions inlined) -/
+def handleSideResetsTid : Bool :=
+  joinPaths.any (has .set_tid_0) || dropPaths.any (has .set_tid_0) || spawnPaths.any (has .set_tid_0)
+
+theorem gen_handle_side_never_resets_tid : handleSideResetsTid = false := by decide
+
+/-- the topology parameters of the current source, for any ownership forest -/
+def genTopo (owner : Nat → Option Nat) : Topo :=
+  { owner := owner, hTidDrop := (lostP dropPaths).any (has .set_tid_0),
+    hTidDealloc := joinPaths.any (has .set_tid_0) || (spawnPaths.filter (has .ret_err)).any (has .set_tid_0) }
+
+theorem gen_topo_good (owner : Nat → Option Nat) : (genTopo owner).Good := by
+  constructor <;> (simp only [genTopo]; decide)
+
+def ReachableN (c : Cfg) (tp : Topo) (s : St) : Prop := ∃ evs, runN c tp St.init evs = some s
+
+/-- with no handle-side `set_tid_address`, a step of a nested family is a step of the flat family: attributing the
+handle side to the thread that executes it only *restricts* when its steps can happen (the owner must be inside its closure) -/
+theorem stepN_is_step (c : Cfg) (tp : Topo) (htp : tp.Good) (s s' : St) (i : Nat) (e : Ev)
+    (h : stepN c tp s i e = some s') : step c s i e = some s' := by
+  obtain ⟨h1, h2⟩ := htp
+  unfold stepN at h
+  split at h
+  · simp at h
+  · split at h
+    · simp at h
+    · rename_i s1 hs1
+      have hw : hWipes tp (s.inst i) e = false := by
+        cases e <;> simp [hWipes, h1, h2]
+      simp only [hw, Bool.false_eq_true, if_false, Option.some.injEq] at h
+      rw [hs1, h]
+
+theorem runN_is_run (c : Cfg) (tp : Topo) (htp : tp.Good) (s s' : St) (evs : List (Nat × Ev))
+    (h : runN c tp s evs = some s') : run c s evs = some s' := by
+  induction evs generalizing s with
+  | nil => simpa [runN, run] using h
+  | cons x rest ih =>
+    obtain ⟨i, e⟩ := x
+    simp only [runN] at h
+    split at h
+    · rename_i s1 h1
+      simp only [run, stepN_is_step c tp htp s s1 i e h1]
+      exact ih s1 h
+    · simp at h
+
+/-- **every nested family is a flat family**: whatever the ownership forest (any depth, any fan-out, threads that are
+handle side and thread side at once), every state it can reach is reachable by the flat model — so every theorem of
+C05 / C06 holds for nested families as it stands -/
+theorem reachableN_reachable (c : Cfg) (tp : Topo) (htp : tp.Good) (s : St) (h : ReachableN c tp s) : Reachable c s := by
+  obtain ⟨evs, h⟩ := h
+  exact ⟨evs, runN_is_run c tp htp _ s evs h⟩
+
+/-- **the clear-tid address of a spawned thread is its own exit word unless IT lost the hand-over**: in a nested family,
+whatever handle-side work a thread has done for other instances (spawned them, had spawns fail, joined them, dropped
+their handles early or late), its clear-tid address has been reset only if its own handle was dropped first — the
+thread went (is going) through the lost-CAS branch of its own epilogue / panic handler -/
+theorem clear_tid_intact_nested (c : Cfg) (hc : c.Good) (tp : Topo) (htp : tp.Good) (s : St) (h : ReachableN c tp s) (j : Nat)
+    (hst : (s.inst j).t ≠ .notStarted) (hct : (s.inst j).ctid = false) :
+    (s.inst j).winner = some .H ∧ (s.inst j).h = .detached := by
+  have inv := reachable_inv c hc s (reachableN_reachable c tp htp s h) j
+  have hw := inv.ctidW hst hct
+  exact ⟨hw, inv.wH.mp hw⟩
+
+/-- **join never hangs, nested**: while the thread that owns the handle of `i` — main or a spawned thread — is blocked in
+the futex wait of join / drop, instance `i`'s thread exists, its exit has not been processed and a step of `i`'s thread
+or of the kernel is enabled *in the nested family* (thread and kernel steps need nobody's permission) -/
+theorem join_wait_has_waker_nested (c : Cfg) (hc : c.Good) (tp : Topo) (htp : tp.Good) (s : St) (h : ReachableN c tp s) (i : Nat)
+    (hp : isParked (s.inst i).h = true) :
+    (s.inst i).t ≠ .notStarted ∧ (s.inst i).kdone = false ∧ ∃ s', stepN c tp s i (nextTK (s.inst i)) = some s' := by
+  obtain ⟨h1, h2, x', hx⟩ := join_wait_has_waker c hc s (reachableN_reachable c tp htp s h) i hp
+  refine ⟨h1, h2, ?_⟩
+  have hne : isHEv (nextTK (s.inst i)) = false := by
+    unfold nextTK; cases (s.inst i).t <;> simp [isHEv]
+  have hw : hWipes tp (s.inst i) (nextTK (s.inst i)) = false := by
+    unfold nextTK; cases (s.inst i).t <;> simp [hWipes]
+  simp [stepN, hne, step, hx, hw]
+
+/-- and a thread that has exited with its clear-tid address intact is what ends the wait: the kernel's step is enabled
+and it clears the word and wakes the parked owner -/
+theorem exit_wakes_parked_owner (c : Cfg) (hc : c.Good) (tp : Topo) (htp : tp.Good) (s : St) (h : ReachableN c tp s) (i : Nat) (jn : Bool)
+    (hp : (s.inst i).h = .wParked jn) (hd : (s.inst i).t = .dead) :
+    (s.inst i).ctid = true ∧ ∃ s', stepN c tp s i .kExit = some s' ∧ (s'.inst i).word = 0 ∧ (s'.inst i).h = retTo c jn := by
+  have hr := reachableN_reachable c tp htp s h
+  have inv := reachable_inv c hc s hr i
+  have hk : (s.inst i).kdone = false := inv.parkedI (by rw [hp]; rfl)
+  have hct : (s.inst i).ctid = true := by
+    cases hcc : (s.inst i).ctid
+    · have := (clear_tid_intact_nested c hc tp htp s h i (by rw [hd]; simp) hcc).2
+      rw [hp] at this; cases this
+    · rfl
+  refine ⟨hct, ?_⟩
+  simp [stepN, isHEv, hWipes, step, stepI, hd, hk, hct, hp, setInst, touchTsm]
+
+/-- the variants: a handle-side `set_tid_address(0)` — in `Drop for JoinHandle` (`hTidDrop`) or in `Tsm::dealloc`
+(`hTidDealloc`) — executed by a SPAWNED thread resets that thread's own clear-tid address -/
+def dropTidTopo : Topo := { owner := fun i => if i = 1 then some 0 else none, hTidDrop := true, hTidDealloc := false }
+def deallocTidTopo : Topo := { dropTidTopo with hTidDrop := false, hTidDealloc := true }
+def nestedTopo : Topo := genTopo (fun i => if i = 1 then some 0 else none)
+
+def spawn01 : List (Nat × Ev) :=
+  [(0, .hAllocTsm), (0, .hBox), (0, .hMmap true), (0, .hAllocTls), (0, .hClone true),
+   (1, .hAllocTsm), (1, .hBox), (1, .hMmap true), (1, .hAllocTls), (1, .hClone true),
+   (1, .tRet 3), (1, .tWrite), (1, .tCas true), (1, .tFreeTls), (1, .tFreeBox), (1, .tMunmap), (1, .tExit), (1, .kExit)]
+def parentExits : List (Nat × Ev) :=
+  [(0, .tRet 7), (0, .tWrite), (0, .tCas true), (0, .tFreeTls), (0, .tFreeBox), (0, .tMunmap), (0, .tExit), (0, .kExit)]
+/-- thread 0 (spawned by main) spawns thread 1, drops its handle after it finished, returns; main joins thread 0 -/
+def nestedDropLate : List (Nat × Ev) :=
+  spawn01 ++ [(1, .hDrop), (1, .hCas false), (1, .hLoad 0), (1, .hFreeTsm)] ++ parentExits ++ [(0, .hJoin), (0, .hLoad 1), (0, .hFwait true)]
+/-- ... joins thread 1 instead -/
+def nestedJoin : List (Nat × Ev) :=
+  spawn01 ++ [(1, .hJoin), (1, .hLoad 0), (1, .hReadSlot), (1, .hFreeTsm)] ++ parentExits ++ [(0, .hJoin), (0, .hLoad 1), (0, .hFwait true)]
+
+/-- the outer thread after the history: main is parked in `join` on it, it has exited, the kernel has finished its exit, its
+exit word is still 1, its join state is still allocated; the inner thread's execution is complete -/
+def outerOf (tp : Topo) (tr : List (Nat × Ev)) : Option Bool :=
+  (runN genCfg tp St.init tr).map (fun s => (s.inst 0).h == .wParked true && (s.inst 0).t == .dead && (s.inst 0).kdone &&
+    (s.inst 0).word == 1 && (s.inst 0).tsm == .live && complete (s.inst 1))
+
+/-- **caller_settid_breaks_join**: with the reset moved into `Drop for JoinHandle` (into `Tsm::dealloc`), a spawned
+thread that drops the handle of a finished child (joins a child) wipes its own clear-tid address: it exits, the kernel
+is done with it, its exit word is still 1, and main is parked on it in `join` with the join state still allocated -/
+theorem caller_settid_breaks_join :
+    outerOf dropTidTopo nestedDropLate = some true ∧ outerOf deallocTidTopo nestedJoin = some true ∧
+    outerOf deallocTidTopo nestedDropLate = some true := by decide
+
+/-- ... for ever: once the thread is gone and the kernel has finished its exit, no thread or kernel step is left for it -/
+theorem no_waker_after_exit (c : Cfg) (x : Inst) (e : Ev) (ht : x.t = .dead) (hk : x.kdone = true) (he : isHEv e = false) :
+    stepI c x e = none := by
+  cases e <;> simp_all [stepI, isHEv]
+
+/-- the source as it is refuses those histories (the kernel has cleared the word: main cannot park on it) and completes them -/
+theorem current_code_nested_ok :
+    outerOf nestedTopo nestedDropLate = none ∧ outerOf nestedTopo nestedJoin = none ∧
+    (runN genCfg nestedTopo St.init
+      (spawn01 ++ [(1, .hDrop), (1, .hCas false), (1, .hLoad 0), (1, .hFreeTsm)] ++ parentExits ++ [(0, .hJoin), (0, .hLoad 0), (0, .hReadSlot), (0, .hFreeTsm)])).map
+      (fun s => (complete (s.inst 0) && complete (s.inst 1), (s.inst 0).joinRes, (s.inst 0).bad || (s.inst 1).bad, liveHeap (s.inst 0) + liveHeap (s.inst 1)))
+      = some (true, some (some 7), false, 0) := by decide
+
+/-- a handle-side step of a nested instance needs its owner inside its closure: before the owner exists, and after its
+closure returned, the model refuses it (non-vacuity of the attribution) -/
+example : runN genCfg nestedTopo St.init [(1, .hAllocTsm)] = none := by decide
+example : (runN genCfg nestedTopo St.init (spawn01 ++ [(0, .tRet 7), (1, .hDrop)])).isNone = true := by decide
+example : ReachableN genCfg nestedTopo St.init := ⟨[], rfl⟩
+
 end TinyVerif.Thread
